@@ -478,6 +478,7 @@ func init() {
 	register(&Property{
 		ID: "C04",
 		Explore: func(t *testing.T, w *Worker, r *simrt.RNG) {
+			w.Cold(t, genC04Group)
 			if w.unit == 0 {
 				// once per check: a 17 MiB FASTA record written at width 60 and
 				// re-wrapped onto a single physical line
